@@ -209,7 +209,7 @@ class Ctx:
             return False, "Print Assumptions run failed:\n" + out[-2000:]
         closed = out.count("Closed under the global context")
         axioms = sorted(set(re.findall(r"^([\w.]+)\s*:", out, re.M)))
-        allowed = ALLOWED_AXIOMS.get(self.pid, set())
+        allowed = set(ALLOWED_AXIOMS.get(self.pid, set())) | set(getattr(self, "allowed_axioms", []))
         extra = [a for a in axioms if a not in allowed]
         self.cov["property_theorems"] = thms
         self.cov["axioms"] = axioms
@@ -364,10 +364,16 @@ def ensure_coqproject():
 
 
 def load_findings():
+    out = []
     p = os.path.join(VERIF, "known_findings.json")
-    if not os.path.isfile(p):
-        return []
-    return json.load(open(p)).get("findings", [])
+    if os.path.isfile(p):
+        out += json.load(open(p)).get("findings", [])
+    d = os.path.join(VERIF, "known_findings.d")
+    if os.path.isdir(d):
+        for n in sorted(os.listdir(d)):
+            if n.endswith(".json"):
+                out += json.load(open(os.path.join(d, n))).get("findings", [])
+    return out
 
 
 # ---------------- Gallina literal helpers (python side)
